@@ -34,6 +34,11 @@ fn descs() -> Vec<FnDesc> {
         FnDesc { name: "a_rather_long_function_name_for_a_cacheable_lookup", cacheable: false, kind: Kind::V, suspend: 0 },
         // declares itself cacheable or not depending on a switch that the harness flips between evaluations
         FnDesc { name: "tg", cacheable: true, kind: Kind::Tag, suspend: 0 },
+        // when invoked, turns the switch off for the rest of the evaluation (a function that was cacheable stops being so midway)
+        FnDesc { name: "tgoff", cacheable: false, kind: Kind::Tag, suspend: 0 },
+        // fail with an error that is itself a UserFunctionError naming another function
+        FnDesc { name: "cu", cacheable: true, kind: Kind::EU, suspend: 0 },
+        FnDesc { name: "nu", cacheable: false, kind: Kind::EU, suspend: 0 },
     ]
 }
 
@@ -80,6 +85,20 @@ struct Call {
 }
 
 fn arg_value(c: &Call, a: &[Value]) -> Value {
+    // two arguments of more than a megabyte that differ in the last byte (only used by one dedicated history per shard)
+    if c.arg == 999_990 {
+        return Value::String("z".repeat(1_100_000));
+    }
+    if c.arg == 999_991 {
+        return Value::String(format!("{}y", "z".repeat(1_099_999)));
+    }
+    // arguments whose rendering is longer than 64 KiB (picked by one random history in 30)
+    match c.arg {
+        999_992 => return Value::String("x".repeat(70_000)),
+        999_993 => return Value::String(format!("{}y", "x".repeat(69_999))),
+        999_994 => return Value::Vec((0..30_000).map(Value::Int).collect()),
+        _ => {}
+    }
     // indices beyond the look-alike pool denote "the integer <index>" (used by the long histories)
     if c.arg >= 1_000_000 {
         // "random argument number n": a deterministic pseudo-random value of a pseudo-random type
@@ -122,7 +141,13 @@ fn judge(ctx: &mut Ctx, calls: &[Call], cuts: &[usize], plan: FaultPlan, family:
     let rules = to_rules(calls, cuts, &a);
     // the switch of the "tg" function: one value while the ruleset is built and during evaluations 1 and 4, the other during 2, 3 and 5
     let toggles = calls.iter().any(|c| c.func.starts_with("tg") || c.inner.map(|i| i.starts_with("tg")).unwrap_or(false));
-    let start = calls.len() % 2 == 0;
+    // histories that switch cacheability off midway start every evaluation with the switch on, and nothing is flipped between evaluations
+    let midway = calls.iter().any(|c| c.func.starts_with("tgoff") || c.inner.map(|i| i.starts_with("tgoff")).unwrap_or(false));
+    let start = calls.len() % 2 == 0 || midway;
+    let toggles = toggles && !midway;
+    if midway {
+        ctx.hit("histories-that-turn-cacheability-off-midway");
+    }
     crate::instr::TOGGLE_CACHEABLE.store(start, std::sync::atomic::Ordering::SeqCst);
     let fx: Fixture = build(&descs_toggled(start), &BTreeMap::new(), &rules, plan);
     let facts = Value::None;
@@ -272,12 +297,18 @@ fn exhaustive(ctx: &mut Ctx, max_len: usize) {
 fn random(ctx: &mut Ctx, n: usize) {
     let mut rng: Rng = ctx.rng.clone();
     let a = args();
-    let fns = ["ca", "cb", "na", "cn", "ce", "nb", "cr", "nr", "dcx", "a_rather_long_function_name_for_a_cacheable_lookup_a", "a_rather_long_function_name_for_a_cacheable_lookup_b", "a_rather_long_function_name_for_a_cacheable_lookup", "tg", "tg"];
+    let fns = ["ca", "cb", "na", "cn", "ce", "nb", "cr", "nr", "dcx", "a_rather_long_function_name_for_a_cacheable_lookup_a", "a_rather_long_function_name_for_a_cacheable_lookup_b", "a_rather_long_function_name_for_a_cacheable_lookup", "tg", "tg", "tgoff", "cu", "nu"];
     for _ in 0..n {
         let len = if rng.chance(1, 10) { 13 + rng.below(48) } else { 1 + rng.below(12) };
         // few distinct arguments per history so that repeats are common
         let k = 1 + rng.below(4);
-        let local: Vec<usize> = (0..k).map(|_| if rng.chance(1, 4) { 1_000_000 + rng.below(1_000_000) } else { rng.below(a.len()) }).collect();
+        let mut local: Vec<usize> = (0..k).map(|_| if rng.chance(1, 4) { 1_000_000 + rng.below(1_000_000) } else { rng.below(a.len()) }).collect();
+        if rng.chance(1, 30) {
+            local[0] = 999_992 + rng.below(3);
+            if k > 1 && rng.chance(1, 2) {
+                local[1] = 999_992 + rng.below(3);
+            }
+        }
         let calls: Vec<Call> = (0..len)
             .map(|_| Call { func: fns[rng.below(fns.len())], arg: local[rng.below(k)], inner: if rng.chance(1, 6) { Some(fns[rng.below(4)]) } else { None } })
             .collect();
@@ -323,6 +354,10 @@ fn long_histories(ctx: &mut Ctx, n: usize, n_huge: usize) {
 }
 
 fn run(ctx: &mut Ctx) {
+    {
+        let calls: Vec<Call> = [("ca", 999_990), ("ca", 999_990), ("cb", 999_990), ("ca", 999_991), ("ca", 999_990), ("na", 999_991), ("ca", 999_991)].into_iter().map(|(f, arg)| Call { func: f, arg, inner: None }).collect();
+        judge(ctx, &calls, &[3], FaultPlan::default(), "megabyte-arguments");
+    }
     long_histories(ctx, ctx.tier.of(30, 300), ctx.tier.of(1, 4));
     exhaustive(ctx, ctx.tier.of(3, 4));
     random(ctx, ctx.tier.of(60_000, 600_000));
@@ -342,10 +377,11 @@ fn finish(m: &Merged, tier: Tier) -> Finish {
     f.floors.push(floor(format!("evaluations after a function's declared cacheability changed: {}", m.c("evaluations-after-the-declared-cacheability-changed")), m.c("evaluations-after-the-declared-cacheability-changed") >= tier.of(20_000, 200_000)));
     f.floors.push(floor(format!("histories with more than 4500 distinct arguments: {}", m.c("family:histories-with-thousands-of-distinct-arguments")), m.c("family:histories-with-thousands-of-distinct-arguments") >= 16));
     f.floors.push(floor(format!("histories evaluated 60 times in a row: {}", m.c("histories-evaluated-60-times")), m.c("histories-evaluated-60-times") >= 100));
+    f.floors.push(floor(format!("histories in which a function stops being cacheable midway: {}", m.c("histories-that-turn-cacheability-off-midway")), m.c("histories-that-turn-cacheability-off-midway") >= tier.of(5_000, 50_000)));
     f.extras.insert("histories_distinct".into(), json!(m.distinct_nontrivial));
     f.extras.insert("calls_per_history".into(), json!(m.prefix_map("calls:")));
     f.extras.insert("families".into(), json!(m.prefix_map("family:")));
     f.assumptions = vec!["'distinct argument' is structural identity (Float by bit pattern, Decimal by value and scale); arguments that are equal but differently rendered (d1.0 / d1.00) and NaN payloads are not generated, the statement does not fix them".into(),
-        "'declares itself non-cacheable' is read in the present tense: what cacheable() answers during the evaluation in which the call is made. The switch of the toggling function is flipped only between evaluations (never while one is running), so the answer is the same from before the evaluation starts until after it ends".into()];
+        "'declares itself non-cacheable' is read in the present tense: what cacheable() answers during the evaluation in which the call is made. The switch of the toggling function is flipped only between evaluations (never while one is running), so the answer is the same from before the evaluation starts until after it ends. One more case is generated: a function that is cacheable at the start of an evaluation and declares itself non-cacheable from some call on (never the other way round within an evaluation): from that call on it must be invoked every time".into()];
     f
 }
